@@ -574,7 +574,8 @@ pub fn after_client_frame(sim: &mut Sim, c: usize) {
     let (u, held, tc, ts) = client_view(&sim.clients[c].app);
     let mut v: Vec<(&'static str, &'static str, String)> = vec![];
     let mut f20_hits = 0u64;
-    let mut conf_commit: Option<BTreeMap<u64, BTreeSet<u32>>> = None;
+    let mut conf_commit: Option<(BTreeMap<u64, BTreeSet<u32>>, BTreeSet<u64>, BTreeMap<u64, Vec<(u32, u32)>>)> = None;
+    let mut sim_probe_old = 0u64;
     let sid = sim.clients[c].sess.as_ref().unwrap().id;
     let authorized = sim.clients[c].sess.as_ref().unwrap().authorized;
     let _ = authorized;
@@ -828,25 +829,46 @@ pub fn after_client_frame(sim: &mut Sim, c: usize) {
     // first; an older mutate message for an entity that is already ahead leaves no trace).
     {
         let mut conf = sess.conf.clone();
+        let mut pred = sess.pred.clone();
+        let mut hist = sess.hist.clone();
+        let a_of = |comps: &Vec<CompRec>| comps.iter().find(|r| r.kind == Kind::A).and_then(|r| if let Val::Ver(v) = r.val { Some(v) } else { None });
         for m in sess.upd_msgs.iter().take(sess.upd_delivered).skip(sess.upd_applied) {
             for d in &m.despawns {
                 conf.remove(d);
+                pred.remove(d);
+                hist.remove(d);
             }
-            for (e, _) in m.removals.iter() {
+            for (e, kinds) in m.removals.iter() {
                 conf.entry(*e).or_default().insert(m.tick);
+                if pred.contains(e) && kinds.contains(&Kind::A) {
+                    hist.remove(e);
+                }
             }
-            for (e, _) in m.changes.iter() {
+            for (e, comps) in m.changes.iter() {
                 conf.entry(*e).or_default().insert(m.tick);
+                if let (true, Some(v)) = (pred.contains(e), a_of(comps)) {
+                    hist.entry(*e).or_default().push((m.tick, v));
+                }
             }
         }
         let mut applied: Vec<&MutMeta> = newly_applied.iter().map(|id| &sess.muts[id]).collect();
         applied.sort_by(|a, b| b.tick.cmp(&a.tick));
         for m in applied {
-            for (e, _) in &m.ents {
+            for (e, comps) in &m.ents {
                 if let Some(set) = conf.get_mut(e) {
                     let newest = set.iter().next_back().copied().unwrap_or(0);
                     if m.tick > newest {
                         set.insert(m.tick);
+                    } else if pred.contains(e) && newest - m.tick < 64 {
+                        // With a marker that wants history an older message is confirmed and handed
+                        // to the marker's write function.
+                        set.insert(m.tick);
+                        sim_probe_old += 1;
+                    } else {
+                        continue;
+                    }
+                    if let (true, Some(v)) = (pred.contains(e), a_of(comps)) {
+                        hist.entry(*e).or_default().push((m.tick, v));
                     }
                 }
             }
@@ -875,7 +897,21 @@ pub fn after_client_frame(sim: &mut Sim, c: usize) {
                 v.push(("C12", "entity_history_contains", format!("client {c}: entity {se:#x}: ConfirmHistory::contains({}) is true beyond the confirmed tick {lt}", lt + 1)));
             }
         }
-        conf_commit = Some(conf);
+        // The marker's history component holds exactly the values the model says were written.
+        for se in &pred {
+            let Some((cc, ..)) = held.get(se) else { continue };
+            if !conf.contains_key(se) {
+                continue;
+            }
+            let mut got = w.get::<HistA>(Entity::from_bits(*cc)).map(|h| h.0.clone()).unwrap_or_default();
+            let mut want = hist.get(se).cloned().unwrap_or_default();
+            got.sort();
+            want.sort();
+            if got != want {
+                v.push(("C12", "marker_history", format!("client {c}: entity {se:#x} with the history marker recorded (tick, version) pairs {got:?}, applied messages carried {want:?}")));
+            }
+        }
+        conf_commit = Some((conf, pred, hist));
     }
 
     // ---- C04 / C05: observed server events
@@ -969,13 +1005,18 @@ pub fn after_client_frame(sim: &mut Sim, c: usize) {
         }
     }
 
+    if sim_probe_old > 0 {
+        *sim.stats.probes.entry("old_mutation_written_through_marker".into()).or_insert(0) += sim_probe_old;
+    }
     if f20_hits > 0 {
         *sim.stats.probes.entry("known_F20_hit".into()).or_insert(0) += f20_hits;
     }
     // ---- commit bookkeeping
     let sess = sim.clients[c].sess.as_mut().unwrap();
-    if let Some(conf) = conf_commit {
+    if let Some((conf, pred, hist)) = conf_commit {
         sess.conf = conf;
+        sess.pred = pred;
+        sess.hist = hist;
     }
     sess.last_u = u;
     for (_, (cc, _, _, lt)) in &held {
